@@ -235,6 +235,8 @@ def make_dataset(rng, kind, n=None):
         d["width"] = rng.choice([10, 20, 37.5, 60, 25])
         if rng.random() < 0.8:
             d["text"] = "%s %d" % (rng.choice(TEXT_POOL), i + 1)
+        elif rng.random() < 0.25:
+            d["width"] = 0                   # a bare marker: explicit width 0, no text
     rng.shuffle(data)
     return data
 
@@ -657,11 +659,15 @@ def fixed_config(name):
                       "labelPadding": {"left": 6, "right": 1, "top": 0, "bottom": 4}}
     # data-derived domains for which nice() is NOT idempotent (the widened extent picks a coarser tick interval): a timeline
     # that fitted its axis again at a later export would draw another document
-    if name in ("c7", "c8", "c9"):
+    # (c10, c11: two timelines whose data start at the same instant but span 40 s and 2 min - 5-second and 15-second ticks:
+    #  whatever one of them leaves behind in module-level state keyed by an instant is found by the other)
+    if name in ("c7", "c8", "c9", "c10", "c11"):
         start, span = {"c7": (dt.datetime(2016, 3, 6, 19, 45), dt.timedelta(days=13, seconds=68830)),
                        "c8": (dt.datetime(1999, 11, 26, 15, 26), dt.timedelta(days=37, seconds=9773)),
-                       "c9": (dt.datetime(1999, 9, 7, 12, 49), dt.timedelta(seconds=9, milliseconds=194))}[name]
-        k = {"c7": 6, "c8": 9, "c9": 5}[name]
+                       "c9": (dt.datetime(1999, 9, 7, 12, 49), dt.timedelta(seconds=9, milliseconds=194)),
+                       "c10": (dt.datetime(2021, 6, 1, 10, 20, 10, 250000), dt.timedelta(seconds=40)),
+                       "c11": (dt.datetime(2021, 6, 1, 10, 20, 10, 250000), dt.timedelta(minutes=2))}[name]
+        k = {"c7": 6, "c8": 9, "c9": 5, "c10": 6, "c11": 7}[name]
         data = [{"time": start + span * (i / float(k - 1)), "width": 40, "text": "%s%d" % (name, i)} for i in range(k)]
         for d in data:
             d["time"] = d["time"].replace(microsecond=(d["time"].microsecond // 1000) * 1000)
@@ -770,7 +776,7 @@ def play_timelines(h, seed):
 
 def random_timelines_history(rng):
     ids = [1, 2, 3, 4][:rng.randint(2, 4)]
-    cfgs = ["c1", "c2", "c3", "c4", "c5", "c6", "c7", "c8", "c9", "r1", "r2", "r3", "r4", "r5", "r6", "r7", "r8"]
+    cfgs = ["c1", "c2", "c3", "c4", "c5", "c6", "c7", "c8", "c9", "c10", "c11", "c10", "c11", "r1", "r2", "r3", "r4", "r5", "r6", "r7", "r8"]
     h = []
     built = set()
     for _ in range(rng.randint(4, 14)):
